@@ -97,6 +97,8 @@ def work(arg: tuple) -> dict:
                     elif projected(x, rid) not in want_tr:
                         viols.setdefault('trace-differs-from-solo', [0, f'run {rid} ({combo[rid][0]}) of {[c[0] for c in combo]}: same outcome, '
                                          'but a trace the solo run cannot produce', list(x.actions)])[0] += 1
+                for sym_, det_ in M.m_anomalies(x):
+                    viols.setdefault(sym_, [0, det_, list(x.actions)])[0] += 1
                 if x.leftover or x.late:
                     viols.setdefault('leftover-after-overlap', [0, f'{x.leftover} {x.late[:2]}', list(x.actions)])[0] += 1
                 states.update(RU.qstates(x))
